@@ -29,6 +29,7 @@ HeightsOf(r) == (IF HasPost(r) THEN QHeights(r.post.queue) \cup ShHeights(r.post
                 \cup (IF r.a = "rescan" THEN UNION { { r.ranges[i][1], r.ranges[i][2] } : i \in DOMAIN r.ranges } ELSE {})
                 \cup (IF r.a = "reset" THEN { r.bday } \cup { r.act[i][2] : i \in DOMAIN r.act } ELSE {})
                 \cup (IF r.a = "trunc" THEN { r.req } ELSE {})
+                \cup (IF r.a = "rewind" THEN { r.target } ELSE {})
 AllH == { 0 } \cup UNION { HeightsOf(Rec[i]) : i \in DOMAIN Rec }
 TLo == (CHOOSE x \in AllH : \A y \in AllH : x <= y) - 2
 THi == (CHOOSE x \in AllH : \A y \in AllH : x >= y) + 14
@@ -181,15 +182,39 @@ TRescan == /\ IsEvent("rescan")
            /\ UNCHANGED << scanned, top, notesAt, ends, bday, act >>
            /\ PostOK(Rec[l])
 
+\* rewind_to_chain_state(target) on an unchanged chain: the height the wallet settled on is not logged; it is any height at
+\* or above the target that explains which blocks are left (nothing was truncated when the target is not below the highest
+\* scanned block)
+TRewind == /\ IsEvent("rewind")
+           /\ LET ok == Rec[l].res = "ok"
+                  target == Rec[l].target
+                  left == SeqToSet(Rec[l].post.blocks)
+                  cands == IF ~ok THEN { WQ!NoH }
+                           ELSE IF MaxScanned # WQ!NoH /\ target < MaxScanned
+                                THEN { th \in WQ!Hts : th >= target /\ left = { h \in scanned : h <= th } }
+                                ELSE { WQ!NoH }
+              IN  /\ ok => left \subseteq scanned
+                  /\ \E th \in cands :
+                       /\ scanned' = IF ok THEN left ELSE scanned
+                       /\ SetQ(IF ok THEN WQ!RewindTo(Q, target, th) ELSE Q, IF ok THEN WQ!RewindInsertions(target, Q.hi) ELSE << >>, Rec[l])
+                  /\ ends' = IF ok THEN LoggedEnds(Rec[l].post.shards) ELSE ends
+                  /\ ok => \A P \in PoolSet : ends'[P] \subseteq ends[P]
+                  \* statistics: was anything truncated; do scanned blocks above the target stay in the wallet (they are queued again)
+                  /\ (ok /\ ~apart) => PrintT(<< "WQSTAT", "rewind", l, IF cands = { WQ!NoH } THEN "no-truncation" ELSE "truncated",
+                                                IF \E x \in left : x > target THEN "rescans-kept-blocks" ELSE "-",
+                                                IF left # scanned THEN "blocks-removed" ELSE "-" >>)
+           /\ UNCHANGED << top, notesAt, bday, act >>
+           /\ PostOK(Rec[l])
+
 \* suggest_scan_ranges, the end of a sync loop, the comparison with a fresh wallet, ...: no effect on the queue
-TOther == /\ l <= Len(Rec) /\ Rec[l].a \notin { "reset", "block", "tip", "scan", "trunc", "roots", "prune", "rescan" } /\ l' = l + 1
+TOther == /\ l <= Len(Rec) /\ Rec[l].a \notin { "reset", "block", "tip", "scan", "trunc", "roots", "prune", "rescan", "rewind" } /\ l' = l + 1
           /\ UNCHANGED << scanned, top, notesAt, ends, bday, act >>
           /\ SetQ(Q, << >>, Rec[l])
           /\ PostOK(Rec[l])
 
 TraceInit == /\ l = 1 /\ Q = WQ!EmptyQueue /\ scanned = {} /\ top = 0 /\ notesAt = << >>
              /\ ends = [P \in PoolSet |-> {}] /\ bday = WQ!NoH /\ act = [P \in PoolSet |-> WQ!NoH] /\ apart = FALSE
-TraceNext == TReset \/ TBlock \/ TTip \/ TScan \/ TTrunc \/ TRoots \/ TPrune \/ TRescan \/ TOther
+TraceNext == TReset \/ TBlock \/ TTip \/ TScan \/ TTrunc \/ TRoots \/ TPrune \/ TRescan \/ TRewind \/ TOther
 TraceSpec == TraceInit /\ [][TraceNext]_vars
 
 Accepted == LET n == TLCGet("stats").diameter - 1
